@@ -38,3 +38,18 @@ Theorem C10_policy_not_evaluated : forall H auth f1 f2,
   post_check H auth f1 = post_check H auth f2.
 Proof. exact post_check_only_five_fields. Qed.
 Print Assumptions C10_policy_not_evaluated.
+
+(* stored exactly: the content handed to the backend is exactly the bytes of the file part before the first
+   "\r\n--boundary" - nothing lost, nothing added - for every body and every partition of it into frames *)
+From S3V Require Import model.Multipart proofs.MultipartProofs.
+Theorem C10_file_stream_exact : forall boundary remaining later terr i,
+  let pat := CR :: LF :: 45%N :: 45%N :: boundary in
+  find_pat pat (remaining ++ concat later) = Some i ->
+  file_stream boundary remaining later terr = (firstn i (remaining ++ concat later), FsOk).
+Proof. exact file_stream_exact. Qed.
+Print Assumptions C10_file_stream_exact.
+Example C10_file_stream_example :
+  file_stream (b "XyZ") (b "he") [b "llo" ++ [13%N]; [10%N; 45%N]; b "-Xy"; b "Z--" ++ [13%N; 10%N]] false = (b "hello", FsOk)
+  /\ file_stream (b "XyZ") (b "a" ++ [13%N; 10%N] ++ b "--Xy" ++ [13%N]) [[10%N] ++ b "--XyZ"] false = (b "a" ++ [13%N; 10%N] ++ b "--Xy", FsOk).
+Proof. vm_compute. split; reflexivity. Qed.
+Print Assumptions C10_file_stream_example.
